@@ -312,4 +312,17 @@ class PythonEvaluator(Evaluator):
         attributes = self.__dict__.copy()
         attributes['_executable_code'] = dict()  # Code fragment cannot be pickled
         attributes['_evaluable_code'] = dict()  # Code fragment cannot be pickled
+
+        # Frozen contexts are indexed by id(obj), an id that does not survive to a copy
+        statechart = getattr(self._interpreter, 'statechart', None)
+        if statechart is not None:
+            objs = [statechart.state_for(name) for name in statechart.states]
+            objs.extend(statechart.transitions)
+            attributes['_memory'] = [
+                (obj, self._memory[id(obj)]) for obj in objs if id(obj) in self._memory]
         return attributes
+
+    def __setstate__(self, state):
+        self.__dict__.update(state)
+        if isinstance(self._memory, list):
+            self._memory = {id(obj): frozen for obj, frozen in self._memory}
